@@ -548,6 +548,15 @@ struct World
                 Model m;
                 m.init = true;
                 m.C = H.m.C;
+                if ((o.I(1) & 7) == 1)
+                {
+                    // the caller passes the object's own members back in (arguments alias the state being replaced)
+                    H.p->update(H.p->getBreakpoints(), H.p->getCoefficients(), H.p->getNumCoeffs());
+                    check_meta(H);
+                    ctx.count("probe.update_with_aliased_arguments");
+                    changed = true;
+                    break;
+                }
                 if (ncs.empty() || (o.I(1) & 7) == 0) { m.nc = H.m.nc; m.b = H.m.b; ctx.count("probe.update_with_identical_arguments"); }
                 else
                 {
@@ -569,6 +578,19 @@ struct World
                 if (s < 0) break;
                 int dst = (int)(((o.I(1) % kHandles) + kHandles) % kHandles);
                 if (dst == s) dst = (dst + 1) % kHandles;
+                if (kind == OP_COPY && (o.I(2) & 3) == 3 && h[s].m.init)
+                {
+                    // move construction: the source is left in a valid but unspecified state and is not used again
+                    h[dst].p.reset(new Poly(std::move(*h[s].p)));
+                    h[dst].m = h[s].m;
+                    h[s].p.reset();
+                    h[s].m = Model();
+                    check_meta(h[dst]);
+                    ctx.count("probe.move_constructed");
+                    changed = true;
+                    ctx.mark_nontrivial();
+                    break;
+                }
                 if (kind == OP_COPY || !h[dst].p)
                 {
                     h[dst].p.reset(new Poly(*h[s].p));
@@ -770,7 +792,7 @@ inline Plan gen_plan(uint64_t seed, uint64_t index, Tier tier, int profile, int 
             o.i = {r.chance(0.7) ? 0 : (int64_t)r.below(kHandles), r.chance(0.3) ? p.ci[2] : (int64_t)pick_S(), r.chance(0.3) ? p.ci[1] : (int64_t)pick_nc(),
                    (int64_t)r.below(1u << 30), (int64_t)r.below(8), r.chance(0.15) ? 1 : 0};
             break;
-        case OP_COPY: case OP_ASSIGN: o.i = {(int64_t)r.below(kHandles), (int64_t)r.below(kHandles)}; break;
+        case OP_COPY: case OP_ASSIGN: o.i = {(int64_t)r.below(kHandles), (int64_t)r.below(kHandles), (int64_t)r.below(8)}; break;
         case OP_RESPLIT: o.i = {r.chance(0.7) ? 0 : (int64_t)r.below(kHandles), (int64_t)r.below(64), (int64_t)r.below(1u << 30), (int64_t)r.below(8), (int64_t)r.below(12)}; break;
         case OP_DESTROY: case OP_SELF_ASSIGN: o.i = {(int64_t)r.below(kHandles)}; break;
         case OP_BAD_INIT:
